@@ -1,6 +1,6 @@
 (* Extraction of the executable models (ExtrOcamlBasic only; Z, nat, positive stay Coq datatypes). *)
 From Coq Require Import ZArith List Bool.
-From MV Require Import Prelude.Py Gen.TieredTime Gen.UpdateMin Time.Spec Static.Groups Static.Connect Static.Build Sched.Timing Sched.Plane Sched.Link.
+From MV Require Import Prelude.Py Gen.TieredTime Gen.UpdateMin Time.Spec Static.Groups Static.Connect Static.Build Static.Cycle Static.Attrs Sched.Timing Sched.Plane Sched.Link.
 Require Extraction.
 Require Import ExtrOcamlBasic.
 Extraction Language OCaml.
@@ -15,4 +15,5 @@ Extraction "../build/model.ml"
   wfGb group_path gdepth connect_interval connect_one should_reject is_rejected mkF
   (* scheduler *)
   mkStatic mkDStatic init_state init_dstate apply dapply all_done failing_guards begin_preview enabled_sims prog nexts cur pc
-  prepare mkScen mkConn build ancestors.
+  prepare mkScen mkConn build ancestors cycle_check walk_delay izero
+  Attrs.parse_attrs Attrs.parse_set_triple isub iand ior seqb mem mkDesc.
